@@ -233,6 +233,9 @@ pub enum What {
     CopyKind { src: usize, dst: usize, kind: Kind, k: u32 },
     /// raw octets
     Raw(Vec<u8>),
+    /// a metadata PDU built when it is injected, so that names may contain the placeholders
+    /// `{ROOT}` / `{ROOTX}` (the filestore root of the addressed entity / its sibling directory)
+    Meta { seq: u64, unack: bool, closure: bool, null: bool, size: u64, src_name: String, dst_name: String, reqs: Vec<Req> },
 }
 
 #[derive(Clone, Debug, PartialEq, Eq, Hash)]
@@ -506,6 +509,21 @@ impl Entry {
                         format!("copykind:{}>{}:{}:{}", src, dst, kind.name(), k)
                     }
                     What::Raw(b) => format!("raw:{}", hex(b)),
+                    What::Meta { seq, unack, closure, null, size, src_name, dst_name, reqs } => format!(
+                        "meta:{}:{}:{}:{}:{}:{}:{}:{}",
+                        seq,
+                        *unack as u8,
+                        *closure as u8,
+                        *null as u8,
+                        size,
+                        esc_name(src_name),
+                        esc_name(dst_name),
+                        if reqs.is_empty() {
+                            "-".to_string()
+                        } else {
+                            reqs.iter().map(|r| format!("{}/{}/{}", r.action, esc_name(&r.first), esc_name(&r.second))).collect::<Vec<_>>().join(",")
+                        }
+                    ),
                 };
                 format!(
                     "inject dir={}>{} what={} at={} delay={}",
@@ -615,6 +633,35 @@ impl Entry {
                         }
                     }
                     "raw" => What::Raw(unhex(wp.get(1).ok_or("bad raw")?)?),
+                    "meta" => {
+                        if wp.len() != 9 {
+                            return Err(format!("bad meta {w}"));
+                        }
+                        let n = |i: usize| wp[i].parse::<u64>().map_err(|_| format!("bad meta {w}"));
+                        What::Meta {
+                            seq: n(1)?,
+                            unack: n(2)? != 0,
+                            closure: n(3)? != 0,
+                            null: n(4)? != 0,
+                            size: n(5)?,
+                            src_name: unesc_name(wp[6])?,
+                            dst_name: unesc_name(wp[7])?,
+                            reqs: if wp[8] == "-" {
+                                vec![]
+                            } else {
+                                wp[8]
+                                    .split(',')
+                                    .map(|x| {
+                                        let p: Vec<&str> = x.split('/').collect();
+                                        if p.len() != 3 {
+                                            return Err(format!("bad req {x}"));
+                                        }
+                                        Ok(Req { action: p[0].parse().map_err(|_| format!("bad req {x}"))?, first: unesc_name(p[1])?, second: unesc_name(p[2])? })
+                                    })
+                                    .collect::<Result<Vec<_>, String>>()?
+                            },
+                        }
+                    }
                     _ => return Err(format!("bad what {w}")),
                 };
                 Ok(Entry::Inject {
